@@ -1,10 +1,11 @@
 """C05 - missing-data gaps survive storage exactly; gap frames always read as NaN."""
 import io
+import os
 
 import numpy as np
 from hypothesis import strategies as st
 
-from .. import codec, poison, reftdf, specs
+from .. import codec, env, poison, reftdf, specs
 from ..core import Sub
 
 PROP = {
@@ -407,6 +408,160 @@ SUBS.append(Sub("long-runs-all-dtypes", run_block, kind="enum", enumerate=specs.
 SUBS.append(Sub("long-tracks", run_block, strategy=specs.long_block_case, budget=(16, 400), shards=(8, 16),
                 rule="blocks with 1-2 tracks of 257 .. 131079 frames; gaps that start or end exactly at 256 / 1024 / 4096 / 8192 / 16384 / 65536 / 131072, "
                      "every second..fifth frame missing (thousands of runs), sparse gaps; all input dtypes / byte orders / layouts"))
+# ---------------------------------------------------------------------------------------
+MASK_PAIRS = [("1101", "1011"), ("0111", "1110"), ("110011", "100111"), ("101", "101"), ("1001", "0110"), ("11110000", "00001111"), ("1", "1"), ("10", "01")]
+
+
+def _masked_block(t, mask, seed):
+    n = len(mask)
+    items = []
+    for i in range(2):
+        vals = specs._vals(seed + 7 * i, n, specs.PER_FRAME[t])
+        m = mask if i == 0 else mask[::-1]
+        items.append(specs._rle_item(t, i, [v if c == "1" else None for v, c in zip(vals, m)]))
+    return specs._rle_block(t, n, items)
+
+
+def enum_two_objects(tier):
+    """a block read through a long-lived Tdf object, replaced through ANOTHER object for the same path by one of the same type and byte size
+    whose gaps lie elsewhere (same number of runs and present frames) or whose values differ, then read through the first object again"""
+    for t in specs.RLE_TYPES:
+        for ma, mb in MASK_PAIRS:
+            for how in ("get_block", "getter", "blocks", "getitem"):
+                for between in ("context-left", "same-context"):
+                    for position in ("last", "first", "only"):
+                        yield {"t": t, "first": ma, "second": mb, "how": how, "between": between, "position": position}
+
+
+def run_two_objects(ctx, case):
+    from basictdf import Tdf
+    from basictdf.tdfBlock import BlockType
+
+    from .. import container
+
+    t, how = case["t"], case["how"]
+    spec1, spec2 = _masked_block(t, case["first"], 11), _masked_block(t, case["second"], 23)
+    p1, p2 = reftdf.encode(spec1), reftdf.encode(spec2)
+    if len(p1) != len(p2):
+        ctx.case(case, False, labels=["two-objects", "sizes-differ"])
+        return
+    code = reftdf.TYPE_CODE[t]
+    ev = reftdf.encode({"t": "events", "format": 1, "startTime": 0, "events": []})
+    mine = {"type": code, "format": 1, "payload": p1, "comment": "first", "cdate": 1, "mdate": 2, "adate": 3}
+    other = {"type": reftdf.TYPE_CODE["events"], "format": 1, "payload": ev, "comment": "the other block", "cdate": 1, "mdate": 2, "adate": 3}
+    # (as the LAST or ONLY block the replacement lands at the very offset of the old one: nothing in the table but the dates tells them apart)
+    image = reftdf.build_image(4, {"last": [other, mine], "first": [mine, other], "only": [mine]}[case.get("position", "first")])
+    d = env.fresh_dir()
+    try:
+        path = os.path.join(d, "f.tdf")
+        with open(path, "wb") as f:
+            f.write(image)
+        a = Tdf(path)
+
+        def read(obj):
+            if how == "get_block":
+                return obj.get_block(BlockType(code))
+            if how == "getter":
+                return getattr(obj, container.GETTERS[t])
+            if how == "blocks":
+                return [b for b in obj.blocks if b.type.value == code][0]
+            return [obj[i] for i in range(len(obj)) if obj.entries[i].type.value == code][0]
+
+        def history():
+            out = []
+            if case["between"] == "context-left":
+                with a:
+                    out.append(specs.extract(read(a)))
+                with Tdf(path).allow_write() as w:
+                    w.replace_block(specs.build(spec2))
+                with a:
+                    out.append(specs.extract(read(a)))
+            else:
+                with a:
+                    out.append(specs.extract(read(a)))
+                    with Tdf(path).allow_write() as w:
+                        w.replace_block(specs.build(spec2))
+                    a.__exit__(None, None, None)
+                    a.__enter__()
+                    out.append(specs.extract(read(a)))
+            return out
+        ok, res = ctx.must(history, f"two-objects/{how}/history", f"reading a {t} block through a long-lived object before and after it was replaced through another object")
+        if ok:
+            for which, got, want in (("before", res[0], specs.canon(spec1)), ("after", res[1], specs.canon(spec2))):
+                dd = specs.first_diff(got, want)
+                if dd:
+                    ctx.fail(f"two-objects/{how}/{which}-replacement-{specs.diff_class(dd[0])}",
+                             f"{t}: read through a long-lived Tdf object {which} the block was replaced (through another object, same byte size, gaps {case['first']} -> "
+                             f"{case['second']}): {dd[0]} is {str(dd[1])[:50]}, the file holds {str(dd[2])[:50]}")
+            # what is in the file now: the run table of the second block
+            data = open(path, "rb").read()
+            e = [e for _, e in reftdf.live(reftdf.parse_container(data)) if e["type"] == code][0]
+            if data[e["offset"]:e["offset"] + e["size"]] != specs.lib_write(specs.build(spec2), sink="fresh"):
+                ctx.fail(f"two-objects/{how}/stored-bytes", f"{t}: the file does not hold the encoding of the block it was given last")
+    finally:
+        env.rmdir(d)
+    ctx.case(case, case["first"] != case["second"], labels=["two-objects", t, how, case["between"]])
+
+
+def enum_overlap(tier):
+    """two decodes that OVERLAP IN TIME: the stream of the first one hands over, inside its k-th read() call, to a second thread that decodes
+    another block of the same kind (other gaps, other values) from start to end; then the first decode goes on. Deterministic - the schedule
+    is owned by the stream."""
+    for t in specs.RLE_TYPES:
+        for ma, mb in (("110111", "101101"), ("011110", "110011"), ("1111", "0110"), ("10101010", "01010101")):
+            for k in range(0, 48):
+                yield {"t": t, "first": ma, "second": mb, "k": k}
+
+
+def run_overlap(ctx, case):
+    import threading
+
+    t, k = case["t"], case["k"]
+    spec1, spec2 = _masked_block(t, case["first"], 31), _masked_block(t, case["second"], 47)
+    spec2 = dict(spec2)
+    b1, b2 = reftdf.encode(spec1), reftdf.encode(spec2)
+    cls = specs.lib_class(t)
+    box = {}
+
+    class Handoff(io.BytesIO):
+        calls = 0
+
+        def read(self, *a):
+            Handoff.calls += 1
+            if Handoff.calls == k + 1:
+                def other():
+                    try:
+                        box["second"] = cls._build(io.BytesIO(b2), 1)
+                    except Exception as e:  # noqa
+                        box["second-error"] = e
+                th = threading.Thread(target=other)
+                th.start()
+                th.join(60)
+            return super().read(*a)
+
+    Handoff.calls = 0
+    ok, first = ctx.must(lambda: cls._build(Handoff(b1), 1), "overlap/decode-first", f"decoding a {t} block while another thread decodes another one inside read() call {k}")
+    if "second-error" in box:
+        e = box["second-error"]
+        ctx.fail(f"overlap/second-decode-raises-{type(e).__name__}", f"{t}: the decode made by a second thread while the first was inside a read() raised {type(e).__name__}: {e}")
+    if ok:
+        for which, blk, spec in (("interrupted", first, spec1), ("interrupting", box.get("second"), spec2)):
+            if blk is None:
+                continue
+            dd = specs.first_diff(specs.extract(blk), specs.canon(spec))
+            if dd:
+                ctx.fail(f"overlap/{which}-decode-{specs.diff_class(dd[0])}", f"{t}: two decodes overlapping in time (hand-over inside read() call {k} of {Handoff.calls}): the {which} "
+                                                                              f"one gives {dd[0]} = {str(dd[1])[:50]}, its bytes say {str(dd[2])[:50]}")
+    ctx.case(case, "second" in box, labels=["overlap", t, "handed-over" if "second" in box else "k-beyond-last-read"])
+
+
+SUBS.append(Sub("replaced-through-another-object", run_two_objects, kind="enum", enumerate=enum_two_objects, shards=(4, 8),
+                rule="4 run-length types x 8 pairs of gap patterns of equal encoded size x 4 read paths (get_block / getter / .blocks / index) x (context left / re-entered) x (the block is the first / last / only one): a block "
+                     "read through a long-lived Tdf object, replaced through another object for the same path, read again through the first: gaps and values are those of the "
+                     "file; finite, enumerated", nontrivial_required=False))
+SUBS.append(Sub("overlapping-decodes", run_overlap, kind="enum", enumerate=enum_overlap, shards=(4, 8),
+                rule="4 run-length types x 4 pairs of gap patterns x the read() call (0..47) of the first decode inside which a second thread decodes another block from start to "
+                     "end (the stream owns the schedule: deterministic): both decodes give gaps and values of their own bytes; finite, enumerated", nontrivial_required=False))
 from ..core import optimised_child_sub  # noqa: E402
 SUBS.append(optimised_child_sub("C05", ["extreme-values", "boundary-masks"]))
 TIME_BUDGET = {"quick": 120, "thorough": 1500}
